@@ -78,7 +78,7 @@ Inductive body :=
 (* source tie for factors.py / similarity.py / leverage_scores.py (Model/MetricsSrc.v): used ONLY when the decision record
    extracted from the current source is not the canonical one (for which Proofs/MetricsSrcTie.v covers all inputs): the
    interpretation of the extracted record is then compared with the model on this case, exactly *)
-| KSrc (scs : option cong_src) (sci : option ci_src) (slv : option lev_src) (b : body).
+| KSrc (scs : option cong_src) (sci : option ci_src) (slv : option lev_src) (spp : option cpp_src) (b : body).
 Definition case := (nat * body)%type.
 
 Fixpoint forallb2 {A B} (f : A -> B -> bool) (l : list A) (l' : list B) : bool :=
@@ -270,12 +270,27 @@ Definition src_cong_ok (s : option cong_src) absv As Bs nas nbs : bool :=
 Definition resq_eqb (a b : res Q) : bool := match a, b with Err, Err => true | Ok x, Ok y => Qeq_bool x y | _, _ => false end.
 Definition resl_eqb (a b : res (list Q)) : bool := match a, b with Err, Err => true | Ok x, Ok y => q_list_eqb x y | _, _ => false end.
 
-Fixpoint src_agree (scs : option cong_src) (sci : option ci_src) (slv : option lev_src) (b : body) : bool :=
+Fixpoint src_agree (scs : option cong_src) (sci : option ci_src) (slv : option lev_src) (spp : option cpp_src) (b : body) : bool :=
   match b with
   | KCong absv As Bs nas nbs _ => src_cong_ok scs absv As Bs nas nbs
   | KCongDual absv As Bs nas nbs _ _ _ => src_cong_ok scs absv As Bs nas nbs
-  | KPermute ref fs _ nas nbs _ => src_cong_ok scs true ref fs nas nbs
-  | KPermuteList ref nas ts _ => forallb (fun t => src_cong_ok scs true ref (snd (fst t)) nas (snd t)) ts
+  | KPermute ref fs w nas nbs impl => src_cong_ok scs true ref fs nas nbs &&
+      match spp, impl with
+      | Some pp, Ok (_, _, p) =>
+          match cp_permute_factors_src Qops pp ref fs w nas nbs (fun _ => p), cp_permute_factors Qops ref fs w nas nbs (fun _ => p) with
+          | Ok a, Ok b => out_eqb a b | Err, Err => true | _, _ => false
+          end
+      | _, _ => true
+      end
+  | KPermuteList ref nas ts impl => forallb (fun t => src_cong_ok scs true ref (snd (fst t)) nas (snd t)) ts &&
+      match spp, impl with
+      | Some pp, Ok outs =>
+          let tape := assign_tape (combine (map snd (map (cmat_of ref nas) ts)) (map snd outs)) in
+          match cp_permute_factors_list_src Qops pp ref nas ts tape, cp_permute_factors_list Qops ref nas ts tape with
+          | Ok a, Ok b => forallb2 out_eqb a b | Err, Err => true | _, _ => false
+          end
+      | _, _ => true
+      end
   | KCorrIdx meth ctol f1 f2 n1 n2 _ =>
       match sci with
       | None => true
@@ -289,7 +304,7 @@ Fixpoint src_agree (scs : option cong_src) (sci : option ci_src) (slv : option l
       end
   | KReg _ _ _ _ _ _ _ => true
   | KRegT _ _ _ _ _ _ => true
-  | KSrc _ _ _ b' => src_agree scs sci slv b'
+  | KSrc _ _ _ _ b' => src_agree scs sci slv spp b'
   end.
 
 Fixpoint agree_body (b : body) : bool :=
@@ -309,7 +324,7 @@ Fixpoint agree_body (b : body) : bool :=
         match src with Some f => negb (axis_ok ax yt) || src_agree_reg which ax yt yp f | None => true end
       end
   | KRegT which zs yt yp exact impl => agree_regT which zs yt yp exact impl
-  | KSrc scs sci slv b' => agree_body b' && src_agree scs sci slv b'
+  | KSrc scs sci slv spp b' => agree_body b' && src_agree scs sci slv spp b'
   end.
 Definition agree (c : case) : bool := agree_body (snd c).
 Definition ident (c : case) : nat := fst c.
